@@ -28,6 +28,7 @@ mod c18;
 mod c19;
 mod c05;
 mod c20;
+mod e2;
 
 use common::*;
 
@@ -45,6 +46,7 @@ fn main() {
         let a = args.get(3).cloned().unwrap_or_default();
         match id.as_str() {
             "C05" => c05::child_main(&a),
+            "E2" => e2::worker_main(),
             _ => machinery_error("no child mode for this id"),
         }
     }
@@ -78,6 +80,8 @@ fn main() {
         "C19" => c19::run(&ctx),
         "C05" => c05::run(&ctx),
         "C20" => c20::run(&ctx),
+        "C02" | "C06" | "C07" => e2::run(&ctx, &id),
+        "C15" => e2::run(&ctx, "C15"),
         _ => machinery_error(format!("unknown property id {id}")),
     }
 }
